@@ -18,6 +18,7 @@ package py
 
 //@ immutable Slice.Start Slice.Stop Slice.Step
 //@ immutable Exception.Base
+//@ immutable Range.Start Range.Stop Range.Step Range.Length
 //@ immutable ghost bigval
 
 // ---- global invariants (state established by package init; no non-init function writes these variables) ----
